@@ -65,3 +65,21 @@ Theorem C05_unsized_range_refuted :
     bs = [97%N] /\ existsb (blk_eqb (UnsizedFaults.ex_leaf [102%N])) loads = true.
 Proof. exact unsized_range_refuted. Qed.
 Print Assumptions C05_unsized_range_refuted.
+
+(* the same for a sharded directory the REFERENCE implementation wrote, after any history of Sets and Removes (Hamt/RefModel.v):
+   a lookup requests a key-determined path of at most one shard per hash level and nothing else, whatever is available *)
+From UV Require Import Hamt.RefModel Hamt.RefHistory.
+Theorem C05_reference_shard_lookup_requests_only_the_hash_path : forall size lg, permitted size lg ->
+  forall H : bytes -> bytes, (forall k, wf_bytes (H k) = true) -> (forall k, length (H k) = 8%nat) ->
+  forall fuel ops t, Forall (hop_ok H) ops -> hrun lg fuel ops = Ok t ->
+  let root := fst (serialize_node size HashMurmur3 (pad_len size) (BShard t)) in
+  forall key, exists path : list blk,
+    (N.of_nat (length path) + 1) * lg <= 64 /\
+    forall fault,
+      Read.lookup fault root (H key) key =
+      match first_fault fault path with
+      | Some (e, tr) => (Err e, tr)
+      | None => (match find (fun e => bytes_eqb (e_name e) key) (mrun ops) with Some e => Ok (e_target e) | None => Err ENotFound end, path)
+      end.
+Proof. exact ref_history_lookup_requests. Qed.
+Print Assumptions C05_reference_shard_lookup_requests_only_the_hash_path.
